@@ -28,6 +28,23 @@ class FeatureProduction(Production):
         for i, feature_structure in enumerate(body_features):
             self._features.add_content(str(i), feature_structure)
 
+    def __eq__(self, other):
+        # Two rules with the same head and body but different feature
+        # structures are different rules
+        if not super().__eq__(other):
+            return False
+        if not isinstance(other, FeatureProduction):
+            return True
+        if self._features is other.features:
+            return True
+        mine = self._features.content
+        theirs = other.features.content
+        return mine.keys() == theirs.keys() and \
+            all(mine[key] is theirs[key] for key in mine)
+
+    def __hash__(self):
+        return super().__hash__()
+
     @property
     def features(self):
         """The merged features of the production rules"""
